@@ -5,10 +5,12 @@
 PATCH=$1; shift
 E=${TRYENV:-/tmp/tryenv}
 mkdir -p $E
+if [ -z "$NOSYNC" ]; then   # NOSYNC=1: keep the copy made by an earlier call (a frozen snapshot)
 rsync -a --delete --exclude out --exclude .git --exclude .lake /verif/ $E/verif/
 rsync -a /verif/lean/.lake/ $E/verif/lean/.lake/ 2>/dev/null
 rsync -a --delete /repo/ $E/repo/
 sed -i "s#=> /repo#=> $E/repo#" $E/verif/go/harness/go.mod
+fi
 cd $E/repo || exit 2
 git checkout -q -- . 2>/dev/null
 [ "$PATCH" = none ] || git apply "$PATCH" || { echo "patch does not apply"; exit 2; }
